@@ -195,6 +195,18 @@ def run_csv(i, data, cnt, out):
             sels.append(list(sel))
     if ncols >= 3:
         sels = [s for k, s in enumerate(sels) if k % 3 == 0 or len(s) == ncols]
+    # --- default arguments, on files of different shapes loaded one after the other in the same process -----------
+    other = os.path.join(d, "other.csv")
+    for oc in ((1, 3) if ncols == 2 else (2, 1)):
+        orows = [tuple("AB"[(k + c) % 2] for c in range(oc)) for k in range(2)]
+        write_csv(other, [f"q{k}" for k in range(oc)], orows)
+        check_load(i, "load_csv(defaults)", {"file": f"{oc} columns"}, other, {}, ref_table(orows, list(range(oc))), None, cnt, out)
+        write_csv(path, rnames, rows)
+        check_load(i, "load_csv(defaults)", {"file": f"{ncols} columns after a {oc}-column file"}, path, {},
+                   ref_table(rows, list(range(ncols))), None, cnt, out)
+    ids0 = [f"v{k}" for k in range(nrows)]
+    write_csv(path, ["id"] + rnames, [(ids0[k],) + tuple(r) for k, r in enumerate(rows)])
+    check_load(i, "load_csv(defaults)+id_col", {"id_col": 0}, path, {"id_col": 0}, ref_table(rows, list(range(ncols)), ids=ids0), None, cnt, out)
     # --- rank columns only ---------------------------------------------------------------
     for delim in (None, ";", "\t"):
         if delim is not None and (isinstance(i, int) and i % 5):
